@@ -428,6 +428,12 @@ func unmarshalWhere(data []byte, parents []Node, typ TypeOf) (Node, error) {
 	parent := parents[0]
 	nodeParent, ok := parent.(chainNodeAliasWhere)
 	if !ok {
+		// FromNode.Where is the property method; the chain method is the embedded one.
+		if from, isFrom := parent.(*FromNode); isFrom {
+			nodeParent, ok = &from.chainnode, true
+		}
+	}
+	if !ok {
 		return nil, fmt.Errorf("parent node does not have where clause but is %T", parent)
 	}
 	child := nodeParent.Where(nil)
@@ -441,6 +447,15 @@ func unmarshalGroupby(data []byte, parents []Node, typ TypeOf) (Node, error) {
 	}
 	parent := parents[0]
 	nodeParent, ok := parent.(chainNodeAliasGroupBy)
+	if !ok {
+		// FromNode.GroupBy and QueryNode.GroupBy are property methods; the chain method is the embedded one.
+		switch p := parent.(type) {
+		case *FromNode:
+			nodeParent, ok = &p.chainnode, true
+		case *QueryNode:
+			nodeParent, ok = &p.chainnode, true
+		}
+	}
 	if !ok {
 		return nil, fmt.Errorf("parent node does not have groupBy clause but is %T", parent)
 	}
